@@ -165,6 +165,20 @@ theorem versions_agree : ∀ v ∈ versions,
   simp only [Bool.and_eq_true, decide_eq_true_eq] at this
   exact ⟨this.1.1, this.1.2, this.2⟩
 
+/-! ## 5. IDL COMMON block, Cython wrapper bodies -/
+
+/-- IDL: a constant reaches IDL procedures only through `COMMON XRAYLIB`: every name that `idl/*.pro` assigns is a member
+of the block and every member is assigned (1662 names, sorted lists, merge walk) -/
+theorem idl_common_exact : Complete idl_assigned idl_common ∧ Complete idl_common idl_assigned :=
+  ⟨completeExcept_nil.mp (completeB_sound (by decide +kernel)), completeExcept_nil.mp (completeB_sound (by decide +kernel))⟩
+
+/-- Cython (`python/xraylib_np.pyx`): a wrapper published under the name of a C function calls that C function and no
+other function of the C API -/
+theorem cython_bodies_bind_same_name : ∀ p ∈ cython_calls, p.1 = p.2 := by
+  have h : (cython_calls.all fun p => decide (p.1 = p.2)) = true := by decide +kernel
+  intro p hp
+  simpa using (List.all_eq_true.mp h) p hp
+
 /-! ## non-vacuity: the tables the statements range over are the big ones, and the excluded sets are small -/
 
 example : cconst.length ≥ 1600 ∧ const_fortran.length ≥ 1600 ∧ const_pascal.length ≥ 1600 ∧ const_java.length ≥ 1600 ∧
@@ -172,7 +186,7 @@ example : cconst.length ≥ 1600 ∧ const_fortran.length ≥ 1600 ∧ const_pas
 example : known_const_fortran.length ≤ 3 ∧ known_const_idl.length ≤ 4 ∧ known_const_pascal.length ≤ 1 ∧
     known_fam_cython.length ≤ 2 ∧ known_proto_pascal.length ≤ 7 ∧ known_proto_cython.length ≤ 27 := by decide +kernel
 example : proto_fortran.length ≥ 170 ∧ proto_pascal.length ≥ 150 ∧ proto_cython.length ≥ 70 ∧ cproto.length ≥ 170 ∧
-    declared.length ≥ 130 ∧ versions.length ≥ 6 := by decide +kernel
+    declared.length ≥ 130 ∧ versions.length ≥ 6 ∧ idl_common.length ≥ 1600 ∧ cython_calls.length ≥ 60 := by decide +kernel
 /-- the checker is not trivially true: a one-entry binding table with a wrong value is rejected -/
 example : agreeB [] [⟨5, 0, 1, 0⟩] [⟨5, 0, 2, 0⟩] = false := by decide
 example : completeB [] [5] [4, 6] = false := by decide
